@@ -164,9 +164,24 @@ def shrink(mod, case: dict, key: str, wall_cap: float, case_wall: float) -> dict
                 best = dict(best)
                 best[field] = new
     if hasattr(mod, "simplify"):
-        for cand in mod.simplify(best):
-            if fails(cand):
-                best = cand
+        # simplify() may itself execute cases: it runs under the same wall guard as a case
+        signal.signal(signal.SIGALRM, _alarm)
+        try:
+            it = iter(mod.simplify(best))
+            while PERF() < t_end:
+                signal.setitimer(signal.ITIMER_REAL, max(1.0, case_wall))
+                try:
+                    cand = next(it)
+                except StopIteration:
+                    break
+                finally:
+                    signal.setitimer(signal.ITIMER_REAL, 0)
+                if fails(cand):
+                    best = cand
+        except CaseTimeout:
+            pass
+        finally:
+            signal.setitimer(signal.ITIMER_REAL, 0)
     best = dict(best)
     best["_shrink_tries"] = tries[0]
     return best
